@@ -198,6 +198,26 @@ fn build_cases(tier: Tier) -> Vec<Case> {
             cases.push(Case { bytes, filter: Filter::Link(1), dest: Dest::File, stdin: false, label: format!("header byte {byte}={val:#x}") });
         }
     }
+    // filter predicates bit by bit on the CLI: FEE ids (link ids) that differ in exactly one bit
+    for bit in 0..16u16 {
+        let a = Rdh::its_fee_id(5, 3, 0);
+        let b = a ^ (1 << bit);
+        let pk: Vec<Packet> = (0..6).map(|i| gen::recognisable_framed(4, if i % 2 == 0 { a } else { b }, 16 + 16 * (i % 3), 41_000 + (bit as u64) * 10 + i as u64)).collect();
+        let bytes = stream::to_bytes(&pk);
+        cases.push(Case { bytes: bytes.clone(), filter: Filter::LayerStave(a), dest: Dest::File, stdin: false, label: format!("fee ids differ in bit {bit}") });
+        cases.push(Case { bytes: bytes.clone(), filter: Filter::Fee(a), dest: Dest::File, stdin: true, label: format!("fee ids differ in bit {bit}") });
+        if gen::rdh0_recognisable(&pk[1].rdh) && (b & 0x3F) <= 47 && ((b >> 12) & 7) <= 6 {
+            cases.push(Case { bytes: bytes.clone(), filter: Filter::LayerStave(b), dest: Dest::File, stdin: false, label: format!("fee ids differ in bit {bit}") });
+            cases.push(Case { bytes: bytes.clone(), filter: Filter::Fee(b), dest: Dest::ImplicitStdout, stdin: false, label: format!("fee ids differ in bit {bit}") });
+        }
+    }
+    for bit in 0..8u8 {
+        let pk: Vec<Packet> = (0..6).map(|i| gen::recognisable_framed(if i % 2 == 0 { 2 } else { 2 ^ (1 << bit) }, gen::fee_of_link(0), 32, 42_000 + (bit as u64) * 10 + i as u64)).collect();
+        let bytes = stream::to_bytes(&pk);
+        for l in [2u8, 2 ^ (1 << bit)] {
+            cases.push(Case { bytes: bytes.clone(), filter: Filter::Link(l), dest: Dest::File, stdin: false, label: format!("link ids differ in bit {bit}") });
+        }
+    }
     // stdout is line buffered by the runtime: contents with newlines at chosen places, sizes around the buffer
     // (1 KiB), the pipe page (4 KiB / 8 KiB) and the pipe capacity (64 KiB)
     for (ci, content) in ["zeros", "all-newlines", "newline-first", "newline-every-1500", "crlf-pairs"].iter().enumerate() {
